@@ -119,7 +119,7 @@ def app_cases(tier, rng):
 def nontrivial(case, out):
     return 'SFired' in out or 'SOngoing' in out
 
-STAGES = [dict(name='cond', mode='unit', coq='Check.C11c', cases=cases, nontrivial=nontrivial, shard=500,
+STAGES = [dict(name='cond', mode='unit', coq='Check.C11c', profile=('Proofs.JudgeBoolP', 'JudgeBoolP.c11_caseb', 'C11_judgement_sound / C11_judgement_transfer (JudgeBoolP.C11_judgement_transfer_b)'), cases=cases, nontrivial=nontrivial, shard=500,
                exhaustive={'thorough': True, 'quick': True},
                rule='InputCondition::evaluate called directly. Exhaustive: for each of 15 configurations (Press, JustPress, Release, Hold x one_shot, '
                     'HoldAndRelease, Tap, Pulse x trigger_on_start x limit 0..3) every sequence of length <= 3 (quick) / <= 4 (thorough) over '
